@@ -49,8 +49,8 @@ Lemma attach_calls s fid afid ts : WF s → G s → calls_ok s (do_attach s fid 
 Proof.
   intros Hwf HG. unfold do_attach. destruct (decide (afid = NOFID)).
   - destruct (new_ref s fid); [|apply calls_ok_nil].
-    destruct (fs_err _); [|unfold fresh; cbn]; (split; [|cbn; split; [|done]; by intros ? [=]]);
-      intros c e0 Hc He; in_list Hc; by cbn in He.
+    destruct (nn_err _) as [er|]; [|unfold fresh; cbn]; (split; [|cbn; split; [|done]; by intros ? [=]]);
+      intros c x0 Hc Hx; in_list Hc; by cbn in Hx.
   - destruct (get_ref s afid) as [| |sf [e d]]; try apply calls_ok_nil.
     destruct (s_file sf); apply calls_ok_nil.
 Qed.
@@ -133,7 +133,7 @@ Proof.
   pose proof (G_lt _ _ _ HG Hb) as Hlt.
   assert (Hone : calls_ok s [CCreate e]) by (by eapply calls_ok_one).
   destruct (negb d); [apply calls_ok_nil|].
-  destruct (_ =? 1); [apply Hone|]. destruct (_ =? 2); [apply Hone|].
+  destruct (_ =? 1); [apply Hone|]. destruct (_ || _); [apply Hone|].
   destruct (_ =? 0).
   - unfold fresh. cbn [fst snd]. destruct (t_dir (tokn ts 0)); [|apply Hone].
     destruct (nn_err _) as [er|]; cbn; rewrite ?next_g_use.
